@@ -271,7 +271,7 @@ fn same(s: &Set, u: &Uni, k: &Know, flip: bool) -> bool {
     *s == spec(u, k, flip)
 }
 
-//@ harness props=C04,C07,C01 covers=3 bounds=thorough:big name=Orswot reads: on SPEC(U,K), read/contains/iter return exactly the members with a surviving witness, their witness clocks as rm context and the knowledge clock as add context
+//@ harness props=C04,C07,C01 covers=3 name=Orswot reads: on SPEC(U,K), read/contains/iter return exactly the members with a surviving witness, their witness clocks as rm context and the knowledge clock as add context
 #[no_mangle]
 pub fn h_orswot_reads(inp: &Inp) -> u8 {
     let mut i = In::new(inp);
@@ -293,7 +293,7 @@ pub fn h_orswot_reads(inp: &Inp) -> u8 {
     }
 }
 
-//@ harness props=C01,C04,C20 bounds=thorough:big name=Orswot L_init: the empty set is SPEC(U, {})
+//@ harness props=C01,C04,C20 name=Orswot L_init: the empty set is SPEC(U, {})
 #[no_mangle]
 pub fn h_orswot_init(inp: &Inp) -> u8 {
     let mut i = In::new(inp);
@@ -306,7 +306,7 @@ pub fn h_orswot_init(inp: &Inp) -> u8 {
     same(&s, &u, &k, false) as u8
 }
 
-//@ harness props=C01,C04,C08,C20 covers=3,4 bounds=thorough:big name=Orswot L_apply(add): applying the next add of any actor to SPEC(U,K) gives SPEC(U,K+e) for every K (no causal assumption)
+//@ harness props=C01,C04,C08,C20 covers=3,4 name=Orswot L_apply(add): applying the next add of any actor to SPEC(U,K) gives SPEC(U,K+e) for every K (no causal assumption)
 #[no_mangle]
 pub fn h_orswot_apply_add(inp: &Inp) -> u8 {
     let mut i = In::new(inp);
@@ -343,7 +343,7 @@ pub fn h_orswot_apply_add(inp: &Inp) -> u8 {
     cov
 }
 
-//@ harness props=C01,C04,C08,C20 covers=3,4 bounds=thorough:big name=Orswot L_apply(rm): applying any not-yet-applied remove to SPEC(U,K) gives SPEC(U,K+e) for every K, including overtaking removes
+//@ harness props=C01,C04,C08,C20 covers=3,4 name=Orswot L_apply(rm): applying any not-yet-applied remove to SPEC(U,K) gives SPEC(U,K+e) for every K, including overtaking removes
 #[no_mangle]
 pub fn h_orswot_apply_rm(inp: &Inp) -> u8 {
     let mut i = In::new(inp);
@@ -375,7 +375,7 @@ pub fn h_orswot_apply_rm(inp: &Inp) -> u8 {
     }
 }
 
-//@ harness props=C09,C04,C20 covers=3,4 bounds=thorough:big name=Orswot L_dup: re-applying any already-applied add or remove leaves SPEC(U,K) unchanged (== and reads)
+//@ harness props=C09,C04,C20 covers=3,4 name=Orswot L_dup: re-applying any already-applied add or remove leaves SPEC(U,K) unchanged (== and reads)
 #[no_mangle]
 pub fn h_orswot_dup(inp: &Inp) -> u8 {
     let mut i = In::new(inp);
@@ -425,7 +425,7 @@ fn slice_eq(x: &Set, y: &Set, v: u8) -> bool {
     }
 }
 
-//@ harness props=C02,C03,C08,C09,C20 variants=NM+2 bounds=quick:small,thorough:small covers=3,4,5 name=Orswot L_merge: merge(SPEC(U,K1), SPEC(U,K2)) == SPEC(U, K1 u K2) for all knowledge pairs (incl. pending removes, stale and equal states); one output slice per variant
+//@ harness props=C02,C03,C08,C09,C20 variants=NM+2 bounds=quick:small,thorough:base covers=3,4,5 name=Orswot L_merge: merge(SPEC(U,K1), SPEC(U,K2)) == SPEC(U, K1 u K2) for all knowledge pairs (incl. pending removes, stale and equal states); one output slice per variant
 #[no_mangle]
 pub fn h_orswot_merge(inp: &Inp) -> u8 {
     let mut i = In::new(inp);
@@ -456,7 +456,7 @@ pub fn h_orswot_merge(inp: &Inp) -> u8 {
     }
 }
 
-//@ harness props=C07,C04,C16 covers=3 bounds=thorough:big name=Orswot op generation from reads: add/add_all/rm/rm_all built from read(), read_ctx(), contains() contexts on SPEC(U,K) are exactly the universe ops (fresh next dot, remove context = what was observed)
+//@ harness props=C07,C04,C16 covers=3 name=Orswot op generation from reads: add/add_all/rm/rm_all built from read(), read_ctx(), contains() contexts on SPEC(U,K) are exactly the universe ops (fresh next dot, remove context = what was observed)
 #[no_mangle]
 pub fn h_orswot_gen(inp: &Inp) -> u8 {
     let mut i = In::new(inp);
@@ -779,7 +779,7 @@ pub fn h_orswot_reset_remove(inp: &Inp) -> u8 {
     }
 }
 
-//@ harness props=C04,C08,C20 covers=3 bounds=thorough:big name=Orswot L_apply(rm, equal context): a second remove that carries the SAME context as an already applied (possibly pending) remove but other members acts like one remove of the union of the members
+//@ harness props=C04,C08,C20 covers=3 name=Orswot L_apply(rm, equal context): a second remove that carries the SAME context as an already applied (possibly pending) remove but other members acts like one remove of the union of the members
 #[no_mangle]
 pub fn h_orswot_apply_rm_same_ctx(inp: &Inp) -> u8 {
     let mut i = In::new(inp);
@@ -804,6 +804,52 @@ pub fn h_orswot_apply_rm_same_ctx(inp: &Inp) -> u8 {
     }
     if pending(&u, &k, 0) && (mask2 & !u.rm_mem[0]) != 0 {
         3 // the pending remove gains members
+    } else {
+        1
+    }
+}
+
+
+/// finer slices: 0..NM*NA-1 = witness of member v/NA by actor v%NA (and presence / well-formedness of the
+/// member's clock), NM*NA = the pending-remove table. The clock slice is decided by `h_orswot_merge`.
+fn fine_slice_eq(x: &Set, y: &Set, v: u8) -> bool {
+    if v < NM * NA {
+        let m = v / NA;
+        let a = v % NA;
+        let cx = x.entries.get(&m);
+        let cy = y.entries.get(&m);
+        cx.is_some() == cy.is_some() && cx.map(|c| vget(c, a)) == cy.map(|c| vget(c, a)) && cx.map(|c| wf(c)) == cy.map(|c| wf(c))
+    } else {
+        x.deferred == y.deferred
+    }
+}
+
+//@ harness props=C02,C03,C04,C08,C09,C20 tiers=thorough variants=NM*NA+1 bounds=thorough:base covers=3,4,5 name=Orswot L_merge with 3 actors (per-witness and pending-table slices): merge(SPEC(U,K1), SPEC(U,K2)) == SPEC(U, K1 u K2) for all knowledge pairs
+#[no_mangle]
+pub fn h_orswot_merge3(inp: &Inp) -> u8 {
+    let mut i = In::new(inp);
+    let v = i.variant(NM * NA + 1);
+    let u = any_uni(&mut i);
+    let k1 = any_know(&mut i, &u);
+    let k2 = any_know(&mut i, &u);
+    let f1 = i.bool();
+    let f2 = i.bool();
+    if !i.ok {
+        return 2;
+    }
+    let mut s = spec(&u, &k1, f1);
+    let o = spec(&u, &k2, f2);
+    s.merge(o);
+    let k = union(&k1, &k2);
+    if !fine_slice_eq(&s, &spec(&u, &k, f1), v) {
+        return 0;
+    }
+    if subset(&k2, &k1) {
+        3
+    } else if pending(&u, &k1, 0) || pending(&u, &k2, 0) {
+        4
+    } else if present(&u, &k2, 0) && !present(&u, &k, 0) {
+        5
     } else {
         1
     }
